@@ -255,7 +255,7 @@ Qed.
 Definition ppost {A} (b : Z) (Q : A -> pst -> Prop) (r : presult A) : Prop :=
   match r with
   | POk a p' => pinv p' /\ kap p' = b /\ Q a p'
-  | PErr t c p' => pinv p' /\ (lpz p' <= b + 2)%Z /\ t = err_tok p'
+  | PErr t c p' => pinv p' /\ (lpz p' <= b + 2)%Z /\ twf t
   | PCrash _ => False
   | PFuel => False
   end.
@@ -274,10 +274,10 @@ Proof. destruct r; cbn; intros H K; auto. destruct H as (H1 & H2 & H3). auto. Qe
 
 Lemma ppost_errorf {A} b (Q : A -> pst -> Prop) c p :
   pinv p -> (lpz p <= b + 2)%Z -> ppost b Q (p_errorf c p).
-Proof. intros H L. unfold p_errorf; cbn. auto. Qed.
+Proof. intros H L. unfold p_errorf; cbn. auto using pinv_err_tok. Qed.
 
 Lemma ppost_unexpected {A} b (Q : A -> pst -> Prop) t p :
-  pinv p -> (lpz p <= b + 2)%Z -> ppost b Q (p_unexpected t p).
-Proof. intros H L. unfold p_unexpected. destruct (_ =? _); apply ppost_errorf; auto. Qed.
+  pinv p -> twf t -> (lpz p <= b + 2)%Z -> ppost b Q (p_unexpected t p).
+Proof. intros H W L. unfold p_unexpected. destruct (_ =? _); cbn; auto. Qed.
 
 End Measure.
